@@ -9,7 +9,7 @@ notapp = []
 for p in props:
     pid = p['id']
     sp = os.path.join(ROOT, 'harness', pid, 'spec.py')
-    if os.path.exists(sp) and pid not in na.get('force', {}):
+    if os.path.exists(sp) and pid in na.get('claimed', []):
         s = importlib.util.spec_from_file_location('s', sp); m = importlib.util.module_from_spec(s); s.loader.exec_module(m)
         checks.append({
             'property_id': pid,
